@@ -97,6 +97,11 @@ macro_rules! next_clause_harness {
                 }
                 // a failed source never yields a clean end
                 assert!(!(st::IO_FAILED && res.0 == 2));
+                // C07 (completeness): trailing blanks and then the end of a healthy source is a
+                // clean end once all declared clauses have been read
+                if st::AT_END && !st::IO_FAILED && (!active || pre_count >= limit) {
+                    assert!(res.0 == 2, "blank tail of the input not accepted as clean end");
+                }
                 kani::cover!(res.0 == 1 && res.1 == 2, "clause with two literals");
                 kani::cover!(res.0 == 2 && active, "clean end with active limit");
                 kani::cover!(res.0 == 3 && st::CALLS >= 5, "error after comments/blank lines");
